@@ -194,8 +194,14 @@ def handover_labels(evs, final_snap=None):
                     continue
                 if k.name == "prio.pop_data":
                     pa = k.args
-                    stg = kids[i + 1] if i + 1 < len(kids) and kids[i + 1].name == "prio.stage" else None
-                    cb = kids[i + 2] if i + 2 < len(kids) and kids[i + 2].name == "codec.buffer_data" else None
+                    # pop_frame's own transition_after may release the record between the pop and the staging
+                    j = i + 1
+                    freed = []
+                    while j < len(kids) and kids[j].name == "store.free":
+                        freed.append(kids[j])
+                        j += 1
+                    stg = kids[j] if j < len(kids) and kids[j].name == "prio.stage" else None
+                    cb = kids[j + 1] if j + 1 < len(kids) and kids[j + 1].name == "codec.buffer_data" else None
                     if stg is None or cb is None:
                         items.append("IUnexpected_pop_without_stage")
                         i += 1
@@ -206,7 +212,14 @@ def handover_labels(evs, final_snap=None):
                     outs.append("OStaged %s %s %s" % (key(sa[1], sa[0]), Z(pa[14]), B(chained)))
                     if chained:
                         chain_len[0] = pa[14]
-                    i += 3
+                    i = j + 2
+                    # the reclaim that follows a small frame belongs to this item: it precedes the release in the model's order
+                    if i < len(kids) and kids[i].name == "prio.reclaim":
+                        o, i = reclaim_outs(kids, i)
+                        outs += o
+                    for fr in freed:
+                        slot_of.pop(fr.args[0], None)
+                        items.append("IRemove %s" % key(fr.args[2], fr.args[1]))
                     continue
                 if k.name == "prio.pop_scheduled_reset":
                     cq = next((x for x in k.kids if x.name == "prio.clear_queue"), None)
@@ -278,17 +291,29 @@ def pattern_byte(sid, who, off):
 
 
 def wire_order_oracle(frames):
-    """on the endpoint's own frames: no DATA / HEADERS after RST_STREAM on a stream, at most one RST_STREAM per stream"""
+    """on the endpoint's own frames: no DATA after RST_STREAM on a stream"""
     viol = []
     rst = set()
     for f in frames:
         t, sid = f.get("t"), f.get("sid")
         if t == "RST_STREAM":
-            if sid in rst:
-                viol.append({"why": "second RST_STREAM on the stream", "sid": sid})
             rst.add(sid)
-        elif t in ("DATA", "HEADERS") and sid in rst:
-            viol.append({"why": "%s after RST_STREAM on the stream" % t, "sid": sid, "frame": f})
+        elif t == "DATA" and sid in rst:
+            viol.append({"why": "DATA after RST_STREAM on the stream", "sid": sid, "frame": f})
+    return viol
+
+
+def stuck_reset_oracle(snap):
+    """after the connection settled with an unblocked transport: a stream that was reset (locally or by the peer) has nothing
+    left in its send queue -- its RST_STREAM needs no flow-control credit, and DATA of a reset stream must not be (re-)queued"""
+    viol = []
+    if not snap or snap.get("conn", {}).get("conn_error"):
+        return viol
+    for st in snap.get("streams", []):
+        if "Closed(Error(Reset(" in st.get("state", "") and st.get("pending_send_len", 0) > 0:
+            viol.append({"why": "a reset stream still has frames queued after the connection settled (DATA re-queued on a reset stream / RST_STREAM stuck)",
+                         "stream": st.get("id"), "pending_send_len": st.get("pending_send_len"), "send_available": st.get("send_available"),
+                         "buffered_send_data": st.get("buffered_send_data"), "state": st.get("state")})
     return viol
 
 
@@ -315,13 +340,29 @@ def driver_pattern_oracle(sc):
 # ------------------------------------------------------------------------------------------------------------------
 # inject correspondence (deterministic)
 
+def run_inject(rep, seed, n, steps, role="both"):
+    """scenarios of profile `inject`; a harness that does not come back is a deadlock: a handle operation run from the transport
+    callback blocked on the stream-state lock, i.e. the connection task called the transport while holding it"""
+    rc, out = common.run_harness("conn", ["--seed", seed, "--n", n, "--steps", steps, "--profile", "inject", "--role", role, "--snap", 2],
+                                 timeout=240)
+    scs, _ = sendflow.load_scenarios(out)
+    if rc == 124:
+        rep.violation("failing-input", {
+            "oracle": "C20 inject: the single-threaded driver hung (deadlock)",
+            "what": "a handle operation executed from inside the transport's poll_write / poll_flush callback never returned: the "
+                    "connection task holds the stream-state lock while it calls the transport (std Mutex is not re-entrant)",
+            "rerun": "harness/conn --seed %s --first %d --n %d --steps %d --profile inject --role %s  (hangs in scenario %d)" %
+                     (seed, len(scs), len(scs) + 1, steps, role, len(scs)),
+            "completed_scenarios_before_the_hang": len(scs)})
+    return scs
+
+
 def correspond_inject(rep, tier, seed):
-    per = 40 if tier == "quick" else 900
+    per = 32 if tier == "quick" else 900
     steps = 160 if tier == "quick" else 200
     scs = []
     for role_i, role in enumerate(("client", "server")):
-        s1, _ = sendflow.gen_scenarios(seed * 4099 + role_i, per, steps, "inject", role=role)
-        scs += s1
+        scs += run_inject(rep, seed * 4099 + role_i, per, steps, role)
     corpus = corpus_scenarios("inject")
     scs = corpus + scs
     hcases, fcases, ccases, keep = [], [], [], []
@@ -377,6 +418,10 @@ def oracle_inject(rep, scs):
     for sc in scs:
         frames = [f for st in sc["trace"] for f in st["out"]]
         v = wire_order_oracle(frames) + driver_pattern_oracle(sc)
+        if sc.get("settled") and sc["trace"] and not any(st["op"].get("op") in ("eof", "read_fail", "drop_conn") or
+                                                        (st["op"].get("op") == "write_mode" and st["op"].get("mode") in ("fail", "zero"))
+                                                        for st in sc["trace"]):
+            v += stuck_reset_oracle(sc["trace"][-1].get("snap"))
         lv, ls = sendflow.wire_ledger(sc)
         v += lv
         stats["data_frames"] += ls["data_frames"]
@@ -632,6 +677,8 @@ def correspond_threads(rep, tier, seed):
         v += [{"why": "DATA payload is not the next bytes of the body", "frame": f} for f in run.get("frames", []) if f.get("t") == "DATA" and not f.get("pattern_ok")]
         lv, _ = sendflow.wire_ledger(ledger_scenario(run))
         v += lv
+        if run.get("settled"):
+            v += stuck_reset_oracle(run.get("snap"))
         for o in run["ops"]:
             r = o.get("res")
             if isinstance(r, dict) and r.get("pattern_ok") is False:
@@ -711,7 +758,9 @@ def report_threads(rep, runs, failing, hard, theorems):
                 "correspondence": "a recorded order of lock sections of a REAL multi-threaded run is rejected by the %s model" % name,
                 "check": {"sendflow": "check_sendflow", "counts": "check_counts", "recvflow": "check_recvflow", "handover": "check_handover", "cell": "cell_ok"}[name],
                 "model": name, "coq_case": case, "replay_hint": "./check C20 --replay <this file> re-evaluates coq_case inside Coq, no threads needed",
-                "theorems_no_longer_tied_to_code": theorems, "cfg": run.get("cfg"), "seed": run.get("seed"), "i": run.get("i"), "workers": run.get("workers")},
+                "theorems_no_longer_tied_to_code": theorems, "cfg": run.get("cfg"), "seed": run.get("seed"), "i": run.get("i"), "workers": run.get("workers"),
+                "git_head_and_status_of_repo": common.sh("git -C %s log --oneline -1; git -C %s status --short" % (common.REPO, common.REPO))[1][-800:],
+                "raw_log": run.get("log", [])[:30000], "ops": run.get("ops", [])[:2000]},
                 no_input=True)
     return n
 
